@@ -152,6 +152,17 @@ var vpPBSkeletons = [][]vpPBSk{
 	{{[]int{1, 2, 3}, []int{2, 1, 1}, 2}, {[]int{-1, 3, 4}, []int{2, 2, 1}, 3}, {[]int{-2, -3, -4}, []int{1, 1, 1}, 2}, {[]int{1, -4}, nil, 1}},
 	// 2: parity-like
 	{{[]int{1, 2, 3}, []int{2, 2, 2}, 3}, {[]int{-1, -2, -3}, []int{2, 2, 2}, 3}, {[]int{1, 4}, nil, 1}, {[]int{-4, 2, 5}, []int{1, 1, 2}, 2}},
+	// 3: 7 variables; with the signs as written the cutting-planes analysis kept re-learning a top-level fact (finding C14-cp-nontermination)
+	{{[]int{1, 2, 5, 4}, []int{1, 2, 2, 1}, 2}, {[]int{-2, -4}, []int{1, 2}, 1}, {[]int{-3, -4, -1, 7, -5, 6}, []int{1, 1, 2, 1, 2, 1}, 5},
+		{[]int{-2, -1, 7, -4, -5, 6, 3}, []int{2, 1, 2, 1, 1, 1, 1}, 7}, {[]int{1, 7, -5, 4, -2, -3, 6}, []int{2, 1, 2, 2, 1, 1, 1}, 5}},
+	// 4: 8 variables; the analysis walked below level 1 (same finding, second cause)
+	{{[]int{5, -7}, []int{2, 3}, 1}, {[]int{5, 7, -3, 2}, nil, 1}, {[]int{-2, -4, 7, 1, -5, -6, -8, -3}, []int{3, 2, 1, 1, 3, 3, 1, 2}, 5},
+		{[]int{-2, 8, 1, 5, 7, -6, 3, 4}, []int{1, 1, 1, 2, 2, 1, 1, 3}, 10}, {[]int{-3, -7, -2, 6, 5, -8, 4, 1}, []int{2, 1, 2, 2, 2, 3, 2, 2}, 11},
+		{[]int{-5, -6, -1, 2}, []int{3, 3, 1, 3}, 4}},
+	// 5: a clause before a weighted constraint that forces two of its variables (4 variables)
+	{{[]int{3, -4}, nil, 1}, {[]int{-1, -2}, nil, 1}, {[]int{1, 2, 3, 4}, []int{2, 2, 1, 1}, 5}},
+	// 6: one weighted constraint over 4 variables (as an equality it is two constraints that simplify each other)
+	{{[]int{-4, -1, 2, -3}, []int{2, 3, 1, 3}, 2}},
 }
 
 // VP_C14_pb_skeleton: PB skeletons with symbolic signs, solved with
@@ -159,7 +170,8 @@ var vpPBSkeletons = [][]vpPBSk{
 // learned-constraint monitor is active.
 func VP_C14_pb_skeleton() {
 	zzvp.IntMode(true)
-	sk := vpPBSkeletons[zzvp.Choose("skeleton", zzvp.Param("nskel", len(vpPBSkeletons)))]
+	from := zzvp.Param("skfrom", 0)
+	sk := vpPBSkeletons[from+zzvp.Choose("skeleton", zzvp.Param("nskel", 3))]
 	maxSym := zzvp.Param("maxsigns", 8)
 	n, cnt := 0, 0
 	var constrs []PBConstr
@@ -201,20 +213,4 @@ func VP_C14_probe() {
 	}
 	pb := ParsePBConstrs(cs)
 	vpSolveCheck(pb, refs, 4)
-}
-
-// VP_KF_C14_1: concrete witness of known finding C14-cp-nontermination (runs out of fuel).
-func VP_KF_C14_1() {
-	zzvp.Fuel(3000000)
-	pbs := []PBConstr{
-		GtEq([]int{1, 2, 5, 4}, []int{1, 2, 2, 1}, 2),
-		GtEq([]int{-2, -4}, []int{1, 2}, 1),
-		GtEq([]int{-3, -4, -1, 7, -5, 6}, []int{1, 1, 2, 1, 2, 1}, 5),
-		GtEq([]int{-2, -1, 7, -4, -5, 6, 3}, []int{2, 1, 2, 1, 1, 1, 1}, 7),
-		GtEq([]int{1, 7, -5, 4, -2, -3, 6}, []int{2, 1, 2, 2, 1, 1, 1}, 5),
-	}
-	s := New(ParsePBConstrs(pbs))
-	s.CuttingPlanes = true
-	st := s.Solve()
-	zzvp.Assert(st == Sat || st == Unsat, "terminates with a verdict")
 }
